@@ -113,9 +113,13 @@ def check_case(ctx, cs):
             calls = {"elevate_nonbezier": lambda: helpers.degree_elevation(p - 1, [list(x) for x in P], num=1),
                      "elevate_num0": lambda: helpers.degree_elevation(p, [list(x) for x in P], num=0),
                      "elevate_negative": lambda: helpers.degree_elevation(p, [list(x) for x in P], num=-1),
-                     "reduce_nonbezier": lambda: helpers.degree_reduction(p + 1, [list(x) for x in P]),
+                     "reduce_nonbezier": lambda: helpers.degree_reduction(p + 1, [list(x) for x in P]),          # one point too few
+                     "reduce_toomany": lambda: helpers.degree_reduction(p - 1, [list(x) for x in P]),            # one point too many (p - 1 >= 2)
+                     "elevate_toofew": lambda: helpers.degree_elevation(p + 1, [list(x) for x in P], num=1),
                      "reduce_degree1": lambda: helpers.degree_reduction(1, [list(x) for x in P[:2]])}
             site = "helpers.degree_elevation" if w.startswith("elevate") else "helpers.degree_reduction"
+            if w == "reduce_toomany" and p - 1 < 2:
+                return
             try:
                 calls[w]()
                 ctx.violate(site, tg + ["not_rejected", w], small, {"expected": "GeomdlException"})
